@@ -6,10 +6,11 @@ props = {f[:-5]: json.load(open(os.path.join(V, "tools", "props", f)))
          for f in sorted(os.listdir(os.path.join(V, "tools", "props"))) if f.endswith(".json")}
 ids = [json.loads(l)["id"] for l in open(os.path.join(V, "properties.jsonl"))]
 hooks = json.load(open(os.path.join(V, "tools", "hooks.json")))
+ready = set(open(os.path.join(V, "tools", "ready.txt")).read().split())
 checks, na = [], []
 for pid in ids:
     p = props.get(pid)
-    if not p or not p.get("claimed", True):
+    if not p or not p.get("claimed", True) or pid not in ready:
         na.append({"property_id": pid, "reason": (p or {}).get("na_reason", "check not built yet; no claim is made for this property in this revision")})
         continue
     checks.append({
